@@ -1,4 +1,5 @@
 import AranyaV.Proofs.CompileProg
+import AranyaV.Proofs.StackLimit
 /-!
 # C22 — Compiled policy code computes the language semantics
 
@@ -105,6 +106,52 @@ theorem compile_correct (p : Program) (cp : Compiled) (ar : Nat → Nat → Opti
   | oof => trivial
 
 /-! ### i64 edges are in the statement -/
+
+/-- **compile_correct with the real machine's stack bound** (`lim`, the real value is
+`Gen.Lang.stackSize = 100`): on the bounded machine `runL` the compiled call either ends exactly as
+the language semantics says or reports `StackOverflow` — the bound adds no other outcome. -/
+theorem compile_correct_bounded (p : Program) (cp : Compiled) (ar : Nat → Nat → Option Nat) (lim : Nat)
+    (hc : compileProgram p.structs p.funs = some cp)
+    (hffi : FfiOk ⟨cp.prog, p, ar⟩)
+    (hstructs : ∀ n d, p.structDef n = some d → (d.map (·.1)).Nodup)
+    (n f : Nat) (args : List Val) (entry : Nat) (hentry : cp.entry f = some entry) :
+    let m : Machine := ⟨cp.prog, p, ar⟩
+    match evalFn p n f args with
+    | .val v l => ∃ k, (∃ t, runL m lim k (VM.init entry args) = .res (.exited .Normal t) ∧ t.stack = [v] ∧ t.log = l) ∨
+        (∃ l', runL m lim k (VM.init entry args) = .overflow l')
+    | .exit r l => ∃ k, (∃ t, runL m lim k (VM.init entry args) = .res (.exited r t) ∧ t.log = l) ∨
+        (∃ l', runL m lim k (VM.init entry args) = .overflow l')
+    | .ffiErr l => ∃ k, runL m lim k (VM.init entry args) = .res (.error .ffi l) ∨
+        (∃ l', runL m lim k (VM.init entry args) = .overflow l')
+    | _ => True := by
+  intro m
+  have h := compile_correct p cp ar hc hffi hstructs n f args entry hentry
+  simp only at h
+  cases hr : evalFn p n f args with
+  | val v l =>
+    rw [hr] at h
+    obtain ⟨k, t, hk, hs, hl⟩ := h
+    refine ⟨k, ?_⟩
+    rcases runL_refines m lim k (VM.init entry args) with ho | he
+    · exact Or.inr ho
+    · exact Or.inl ⟨t, by rw [he, hk], hs, hl⟩
+  | exit r l =>
+    rw [hr] at h
+    obtain ⟨k, t, hk, hl⟩ := h
+    refine ⟨k, ?_⟩
+    rcases runL_refines m lim k (VM.init entry args) with ho | he
+    · exact Or.inr ho
+    · exact Or.inl ⟨t, by rw [he, hk], hl⟩
+  | ffiErr l =>
+    rw [hr] at h
+    obtain ⟨k, hk⟩ := h
+    refine ⟨k, ?_⟩
+    rcases runL_refines m lim k (VM.init entry args) with ho | he
+    · exact Or.inr ho
+    · exact Or.inl (by rw [he, hk])
+  | ret v l => trivial
+  | stuck => trivial
+  | oof => trivial
 
 /-- checked `add`: `None` exactly when the mathematical sum leaves the i64 range -/
 theorem add_checked (a b : Int) :
